@@ -960,8 +960,8 @@ void BasicSolver::ParseOptionString(
       equal_sign = true;
     }
 
-    // Parse option name.
-    SolverOption *opt = FindOption(&name[0], true);
+    // Parse option name. An empty name (e.g. "=5") is unknown.
+    SolverOption *opt = name_size ? FindOption(&name[0], true) : 0;
     if (!opt) {
       HandleUnknownOption(&name[0]);
       continue;       // in case it does not throw
